@@ -35,6 +35,8 @@ type promise struct {
 	ch   graphql.ResolvePromise
 	res  graphql.ResolveResult
 	path string
+	// delivered: the result was sent on the channel (by the idle handler or by a `pre` resolver)
+	delivered bool
 }
 
 type stuckSentinel struct{}
@@ -100,7 +102,8 @@ func (rt *runtime) idle() {
 	for j, p := range rt.outstanding {
 		if pi < len(picked) && picked[pi] == j {
 			pi++
-			rt.events = append(rt.events, Event{"fulfil", "[" + p.path + "]"})
+			rt.events = append(rt.events, Event{Kind: "fulfil", Path: "[" + p.path + "]"})
+			p.delivered = true
 			p.ch <- p.res
 		} else {
 			rest = append(rest, p)
@@ -119,7 +122,11 @@ func resolver(idx int, f *FShape) func(graphql.FieldContext) (interface{}, error
 		rt := o.rt
 		wf := o.w.Fields[idx]
 		path := pathJoin(o.path, key)
-		rt.events = append(rt.events, Event{"start", "[" + path + "]"})
+		ev := Event{Kind: "start", Path: "[" + path + "]"}
+		for _, p := range rt.outstanding {
+			ev.Pending = append(ev.Pending, "["+p.path+"]")
+		}
+		rt.events = append(rt.events, ev)
 		var val any
 		var err error
 		if wf.Err != "" {
@@ -142,7 +149,8 @@ func resolver(idx int, f *FShape) func(graphql.FieldContext) (interface{}, error
 		rt.all++
 		rt.promises = append(rt.promises, p)
 		if wf.Mode == "pre" {
-			rt.events = append(rt.events, Event{"fulfil", "[" + path + "]"})
+			rt.events = append(rt.events, Event{Kind: "fulfil", Path: "[" + path + "]"})
+			p.delivered = true
 			ch <- p.res
 		} else {
 			rt.outstanding = append(rt.outstanding, p)
@@ -347,8 +355,8 @@ func RunReal(c *Case) (obs *Observed, err error) {
 	obs.Events = rt.events
 	obs.Widths = rt.widths
 	for _, p := range rt.promises {
-		// delivered but never received, or never delivered: the executor gave up on this promise
-		if len(p.ch) > 0 {
+		// delivered but never received, or never delivered: the executor never took this promise's result
+		if !p.delivered || len(p.ch) > 0 {
 			obs.Abandoned = append(obs.Abandoned, "["+p.path+"]")
 		}
 	}
